@@ -18,7 +18,11 @@
 
 #define MAXE 256
 #define BADKEY 1
-struct el { int id; struct cstl_hash_node hn; };
+/* two node members: the two table objects are configured with different node offsets, so swapping the tables has
+ * to carry the configuration along with the contents */
+struct el { int id; struct cstl_hash_node hn; long pad; struct cstl_hash_node hn2; };
+#define POISON_NODES(i) do { memset(&pool[i].hn, 0xA5, sizeof pool[i].hn); memset(&pool[i].hn2, 0xA5, sizeof pool[i].hn2); \
+                             pool[i].hn.key = keyof[i]; pool[i].hn2.key = keyof[i]; } while (0)
 static struct el pool[MAXE + 1];
 static size_t keyof[MAXE + 1];
 static int NE, MAXB, NF, BAD, SWAP, FAULTS, PROBES = 2, MAXK;
@@ -63,7 +67,7 @@ static int id_of_el(const void *e)
 static int id_of_hn(const struct cstl_hash_node *hn)
 {
     if (!hn) return 0;
-    return id_of_el((const char *)hn - offsetof(struct el, hn));
+    return id_of_el((const char *)hn - T[cur].off);        /* elements hang on the member the current table is configured with */
 }
 
 static void drv_setup(int argc, char **argv)
@@ -101,13 +105,13 @@ static void drv_reset(void)
     /* the interposer owns every block the library allocated */
     a_reset();
 #ifdef USE_INITIALIZER
-    { struct cstl_hash x = CSTL_HASH_INITIALIZER(struct el, hn); T[0] = x; T[1] = x; }
+    { struct cstl_hash x = CSTL_HASH_INITIALIZER(struct el, hn), y = CSTL_HASH_INITIALIZER(struct el, hn2); T[0] = x; T[1] = y; }
 #else
     cstl_hash_init(&T[0], offsetof(struct el, hn));
-    cstl_hash_init(&T[1], offsetof(struct el, hn));
+    cstl_hash_init(&T[1], offsetof(struct el, hn2));
 #endif
     cur = 0;
-    for (i = 0; i <= NE; i++) { pool[i].hn.key = keyof[i]; pool[i].hn.next = NULL; held[i] = 0; }
+    for (i = 0; i <= NE; i++) { pool[i].hn.key = keyof[i]; pool[i].hn.next = NULL; pool[i].hn2.key = keyof[i]; pool[i].hn2.next = NULL; held[i] = 0; }
 }
 static void drv_aborted(void) { a_end(); }
 
@@ -129,8 +133,7 @@ static int each_visit(void *e, void *p)
     if (cb_erase && id > 0) {
         cstl_hash_erase(&T[cur], e);
         held[id] = 0;
-        memset(&pool[id].hn, 0xA5, sizeof pool[id].hn);   /* "freed" by the callback */
-        pool[id].hn.key = keyof[id];
+        POISON_NODES(id);   /* "freed" by the callback */
     }
     return (cb_stop && cb_count == cb_stop) ? e_stopval(cb_stop) : 0;
 }
@@ -148,8 +151,7 @@ static void clear_cb(void *e, void *p)
     ev_add("[\"c\",%d]", id);
     if (id > 0) {
         held[id] = 0;
-        memset(&pool[id].hn, 0xA5, sizeof pool[id].hn);
-        pool[id].hn.key = keyof[id];
+        POISON_NODES(id);
     }
 }
 
@@ -274,6 +276,8 @@ static void drv_ser(jb_t *b)
         jb_puts(b, "]}");
     }
     jb_printf(b, "],\"cur\":%d,\"oat\":%s,\"on\":", cur, o->bucket.at ? "true" : "false"); jb_size(b, o->count);
+    /* the node member the table holding the contents is configured with (1: hn, 2: hn2) */
+    jb_printf(b, ",\"offk\":%d", h->off == offsetof(struct el, hn) ? 1 : h->off == offsetof(struct el, hn2) ? 2 : -1);
     jb_printf(b, ",\"nlive\":%d,\"damage\":%s,\"bad\":%s}", a_live_count(), a_check() ? "true" : "false", bad ? "true" : "false");
 }
 
